@@ -487,7 +487,15 @@ def _canon(msgs):
 
 
 def lossy_key(msgs):
-    """':'-joined contents, no roles - the documented key format (tests/test_rails_llm_utils.py)."""
+    """The key the instance uses for its events cache. The harness-side cache model (labels, not-judged rule and the
+    signature of finding C15-F9a) follows the implementation's own key function, so that it stays exact whatever the key
+    format is; a key function under which different message lists collide still shows up as `collision` below."""
+    try:
+        from nemoguardrails.rails.llm.utils import get_history_cache_key
+
+        return get_history_cache_key([m for m in msgs if m["role"] in ("user", "assistant", "context", "event")])
+    except Exception:
+        pass
     items = []
     for m in msgs:
         if m["role"] in ("user", "assistant"):
